@@ -192,3 +192,21 @@ Theorem C03_hist_example :
        [mkH (ExH.S1 (qc 3 1)) true; mkH ExH.H2 false; mkH ExH.Fm false]) ] = true.
 Proof. exact ExH.hist_ex. Qed.
 Print Assumptions C03_hist_example.
+
+(* ---------------------------------------------------------------------------------------
+   Coincidences (Geometry/RectCoincide.v, Alloc/InitialCoincide.v): a module whose single rectangle
+   or default square shares the centre or a corner with a refinable cell - whatever derived quantity
+   they also share (area, a side, perimeter, aspect ratio) - gets min(w) * min(h) / area of the cell
+   there, and the ratio 1 exactly when the cell lies inside the rectangle.
+   --------------------------------------------------------------------------------------- *)
+From FrameModel Require Import Geometry.RectCoincide Alloc.InitialCoincide.
+Theorem C03_ia_ratio_anchored : forall sqrt_o feps ceps aeps inc0 R Fx mods out,
+  compatible sqrt_o R Fx mods -> 0 < feps -> feps < 1 ->
+  initial_allocation sqrt_o feps ceps aeps inc0 R Fx mods = Accept out ->
+  forall c, In c R -> exists cell, In cell out /\ crect cell = c /\
+    forall m s, In m mods -> shape sqrt_o m = [s] -> wf c -> wf s ->
+      (forall a, anchored a c s ->
+         ratio (mname m) cell = Qcmin (rw c) (rw s) * Qcmin (rh c) (rh s) / area c) /\
+      (ratio (mname m) cell = 1 <-> is_inside c s = true).
+Proof. exact ia_ratio_anchored. Qed.
+Print Assumptions C03_ia_ratio_anchored.
